@@ -148,6 +148,7 @@ func init() {
 	scenario("/index.(*rangeIndex).keys#in-index", ".", "clover_replay_test.go", "TestVerifReplayIndexPrefix")
 	scenario("/index.(*rangeIndex).IterateRange#covers-", ".", "clover_replay_test.go", "TestVerifReplayReverseScan")
 	scenario("/internal.removeLocalizedTimes", "internal", "internal_replay_test.go", "TestVerifReplayTimeInArray")
+	scenario(".(*CriteriaNormalizeVisitor).VisitUnaryCriteria#no-field-operand", ".", "clover_replay_test.go", "TestVerifReplayInFieldOperand")
 	scenario(".(*DB).DeleteById#size-accounts", ".", "clover_replay_test.go", "TestVerifReplayDeleteAbsent")
 	imp := &replayFamily{pkgDir: ".", testFile: "clover_replay_test.go", testName: "TestVerifReplayImport",
 		build: func(r *Result, vals map[string]string) (interface{}, bool) { return "fixed scenario", true }}
